@@ -3,7 +3,9 @@ package c04
 import (
 	"bufio"
 	"bytes"
+	"context"
 	"fmt"
+	"io"
 	"net/http"
 	"net/http/httptest"
 )
@@ -18,6 +20,8 @@ import (
 type wire struct {
 	h      http.Handler
 	served int
+	// tailEOF: response bodies deliver their last bytes together with io.EOF
+	tailEOF bool
 	// what the server side saw of the last request (before the handler ran)
 	method, requestURI string
 	header             http.Header
@@ -45,7 +49,37 @@ func (w *wire) RoundTrip(r *http.Request) (*http.Response, error) {
 	if err != nil {
 		return nil, fmt.Errorf("wire: a client cannot parse the response: %w", err)
 	}
+	// the context of the request governs the response body as well, as it does with net/http's own transport
+	cb := &ctxBody{ctx: r.Context(), ReadCloser: res.Body}
+	if w.tailEOF {
+		cb.ahead = bufio.NewReader(res.Body)
+	}
+	res.Body = cb
 	return res, nil
+}
+
+type ctxBody struct {
+	ctx context.Context
+	io.ReadCloser
+	// ahead: when set, the last bytes of the body are delivered together with io.EOF, as net/http's transport
+	// delivers the end of a length-delimited body
+	ahead *bufio.Reader
+}
+
+func (b *ctxBody) Read(p []byte) (int, error) {
+	if err := b.ctx.Err(); err != nil {
+		return 0, err
+	}
+	if b.ahead == nil {
+		return b.ReadCloser.Read(p)
+	}
+	n, err := b.ahead.Read(p)
+	if err == nil && n > 0 {
+		if _, perr := b.ahead.Peek(1); perr == io.EOF {
+			err = io.EOF
+		}
+	}
+	return n, err
 }
 
 func firstLine(b []byte) string {
